@@ -95,6 +95,16 @@ def sky(lon, lat, frame='icrs', **attrs):
     return d
 
 
+HELD_UNITS = [['hourangle', 'deg'], ['rad', 'rad'], ['hourangle', 'rad'], ['deg', 'arcmin'], ['arcsec', 'deg'], ['hourangle', 'hourangle']]
+
+
+def held(d, rng, p=0.12):
+    """with probability p, mark a sky-coordinate spec as held in other angular units than degrees."""
+    if rng.random() < p:
+        d['held'] = rng.choice(HELD_UNITS)
+    return d
+
+
 def reg(cls, meta=None, visual=None, **params):
     d = {'t': 'reg', 'cls': cls, 'p': params}
     if meta is not None:
@@ -121,6 +131,12 @@ def build(s):
         return u.Quantity(v, s['u'])
     if t == 'sky':
         kw = dict(s.get('attrs', {}))
+        if s.get('held'):
+            # the same position, held by the coordinate object in other angular units (a catalogue in hours / radians)
+            from astropy.coordinates import Longitude, Latitude
+            lon = Longitude(build_num(s['lon']), 'deg').to(s['held'][0])
+            lat = Latitude(build_num(s['lat']), 'deg').to(s['held'][1])
+            return SkyCoord(lon, lat, frame=s['frame'], **kw)
         return SkyCoord(build_num(s['lon']), build_num(s['lat']), unit='deg',
                         frame=s['frame'], **kw)
     if t == 'reg':
